@@ -1159,8 +1159,10 @@ func drainRule(c *Ctx, r *Report) {
 	ok := lexCall != nil && drain != nil && InstrDominates(lexCall, drain)
 	if ok {
 		// no return between the lexer call and the defer
+		// (a return that cannot be reached from the lexer call — before the goroutine exists — has nothing to drain)
 		for _, ret := range Returns(ps) {
-			if !InstrDominates(drain, ret) {
+			afterLex := ret.Block() == lexCall.Block() || reachableAvoiding(lexCall.Block(), ret.Block(), nil)
+			if afterLex && !InstrDominates(drain, ret) {
 				ok = false
 			}
 		}
